@@ -351,6 +351,60 @@ def rule_vars_origin(ctx):
             else:
                 obs.append(bad('VARS-ORIGIN', inst, 'does not receive response_for_query\'s own operation id', cs[0].get('sp', ''),
                                'Variables / ResponseData / definitions belong to different operations'))
+    # binding: every operation kind that gets its selection bound also gets its variables bound, from the same
+    # definition and under the same operation id (sibling arms must agree)
+    narms = 0
+    for qf in ctx.crate('codegen').all_fns():
+        if qf.from_macro or not norm_path(qf.path).startswith('graphql_client_codegen::query'):
+            continue
+        for mt in qf.walk(lambda x: x['k'] == 'match'):
+            for a in mt['arms']:
+                ps = P.pat_summary(a['pat'])
+                if ps[0] != 'ctor' or '::OperationDefinition::' not in ps[1]:
+                    continue
+                kind = ps[1].split('::')[-1]
+                dn = list(H.deep_nodes(ctx, qf, a['body'], 2))
+                sel_calls = [(f_, n_) for f_, n_ in dn if n_['k'] == 'call' and any(p_.endswith('resolve_object_selection') for p_ in H.callee_paths(n_))]
+                var_calls = [(f_, n_) for f_, n_ in dn if n_['k'] == 'call' and any(p_.endswith('resolve_variables') for p_ in H.callee_paths(n_))]
+                if not sel_calls:
+                    continue
+                narms += 1
+                inst = '%s/arm[%s]' % (short(qf.path), kind)
+                if not var_calls:
+                    obs.append(bad('VARS-ORIGIN', inst, 'the %s arm binds the selection set but never calls resolve_variables' % kind, a['body'].get('sp', ''),
+                                   'operations of this kind get an empty `Variables`: declared variables are not serialized'))
+                    continue
+                vf, vn = var_calls[0]
+                sf_, sn = sel_calls[0]
+                vfields = set()
+                sfields = set()
+                if vf is qf and sf_ is qf:
+                    for arg in vn['args']:
+                        vfields |= TM.fields_in(ctx.pv.eval(vf, arg, H.sym_env(vf), 0))
+                    for arg in sn['args']:
+                        sfields |= TM.fields_in(ctx.pv.eval(sf_, arg, H.sym_env(sf_), 0))
+                else:
+                    # bound inside a helper: what the arm hands to the helper decides which definition is used
+                    for hc in [n_ for n_ in walk(a['body']) if n_['k'] in ('call', 'mcall') and ctx.pv.local_fns(n_.get('callee'))]:
+                        hf = set()
+                        for arg in hc['args'] + ([hc['recv']] if hc['k'] == 'mcall' else []):
+                            hf |= TM.fields_in(ctx.pv.eval(qf, arg, H.sym_env(qf), 0))
+                        if any(x.endswith('.variable_definitions') for x in hf) or any(x.endswith('.selection_set') for x in hf):
+                            vfields |= {x for x in hf if x.endswith('.variable_definitions')}
+                            sfields |= {x for x in hf if x.endswith('.selection_set')}
+                vdefs = {f_ for f_ in vfields if f_.endswith('.variable_definitions')}
+                ssets = {f_ for f_ in sfields if f_.endswith('.selection_set')}
+                same_def = bool(vdefs) and {f_.split('.')[0] for f_ in vdefs} == {f_.split('.')[0] for f_ in ssets}
+                # the operation id: the same local feeds both calls
+                vid = {n_['res'].get('hid') for arg in vn['args'] for n_ in walk(arg) if n_['k'] == 'path' and n_['res'].get('r') == 'local' and 'OperationId' in n_.get('ty', '')}
+                sid = {n_['res'].get('hid') for arg in sn['args'] for n_ in walk(arg) if n_['k'] == 'path' and n_['res'].get('r') == 'local' and 'OperationId' in n_.get('ty', '')}
+                if same_def and vid and vid == sid:
+                    obs.append(ok('VARS-ORIGIN', inst, 'variables and selection bound from the same %s definition under the same operation id' % kind, vn.get('sp', '')))
+                else:
+                    obs.append(bad('VARS-ORIGIN', inst, 'variables are bound from %s / id %s, the selection from %s / id %s' % (sorted(vdefs), sorted(map(str, vid)), sorted(ssets), sorted(map(str, sid))),
+                                   vn.get('sp', ''), 'Variables belongs to another operation'))
+    if narms < 3:
+        obs.append(bad('VARS-ORIGIN', 'floor/arms', 'anchor-missing: expected the query, mutation and subscription arms that bind an operation, found %d' % narms))
     # the field list of Variables: one field per variable, no extra filter
     g = ctx.fn('codegen', 'codegen::generate_variables_struct')
     if g is not None:
@@ -420,7 +474,23 @@ def rule_operation_selection(ctx):
                 obs.append(ok('NO-FALLBACK', 'inner/error-names-operations', 'the not-found error lists the operations the document defines', ea['body'].get('sp', '')))
             else:
                 obs.append(bad('NO-FALLBACK', 'inner/error-names-operations', 'the not-found error does not mention the available operations', ea['body'].get('sp', ''), 'unhelpful/incorrect error'))
-    # selected operations come from select_operation(operation_name, normalization)
+    # the selected operation is chosen by select_operation(operation_name, normalization) and by nothing else:
+    # GeneratedModule::root resolves the module's operation again through the same function, so a second, different
+    # predicate here makes OPERATION_NAME and the generated types come from different operations
+    if ms:
+        sel_expr = ms[0]['scrut']['es'][1 - next(i for i, c in enumerate(ms[0]['scrut']['es']) if 'CodegenMode' in c.get('ty', ''))]
+        dn = list(H.deep_nodes(ctx, fn, sel_expr, 2, None, True, skip=lambda lf: short(lf.path).endswith('select_operation')))
+        via = [n_ for _f, n_ in dn if n_['k'] in ('call', 'mcall') and any(short(f_.path).endswith('select_operation') for f_ in ctx.pv.local_fns(n_.get('callee')))]
+        other = [n_ for _f, n_ in dn if n_['k'] == 'mcall' and n_['method'] in ('find', 'position', 'filter', 'rfind', 'nth', 'last', 'find_map', 'max_by_key', 'min_by_key', 'skip_while')
+                 and 'ResolvedOperation' in (n_['recv'].get('ty', '') + n_.get('ty', ''))]
+        if via and not other:
+            obs.append(ok('SAME-OP', 'inner/selection', 'the requested operation is chosen by Query::select_operation only', sel_expr.get('sp', '')))
+        elif not via:
+            obs.append(bad('SAME-OP', 'inner/selection', 'the requested operation is not chosen through Query::select_operation', sel_expr.get('sp', ''),
+                           'the module is generated for an operation chosen by a different rule than GeneratedModule::root uses'))
+        else:
+            obs.append(bad('SAME-OP', 'inner/selection', 'the requested operation is also chosen by a second predicate (%s) besides Query::select_operation' % sorted({n_['method'] for n_ in other}),
+                           other[0].get('sp', ''), 'OPERATION_NAME and ResponseData/Variables can come from different operations'))
     so = ctx.fn('codegen', 'query::Query::select_operation')
     if so is None:
         obs.append(bad('SAME-OP', 'floor', 'anchor-missing: select_operation not found'))
@@ -510,6 +580,18 @@ def rule_query_text(ctx):
         other = [n for n in H.calls_in(rf) if (n['k'] == 'mcall' and n['method'] in ('lines', 'push_str', 'push', 'trim', 'trim_end', 'replace', 'read_line', 'split', 'join', 'collect', 'chars', 'bytes', 'read', 'read_exact', 'take'))]
         t = ctx.pv.eval(rf, rf.body, H.sym_env(rf), 0)
         xfs = {x for _, xs in TM.paths(t) for x in xs}
+        # the buffer that is returned is written by the read and by nothing else (no drain/truncate/retain/insert/...)
+        tail = rf.body.get('expr')
+        ret_locals = set()
+        for e_ in [tail] + [n['e'] for n in walk(rf.body) if n['k'] == 'ret' and n.get('e') is not None]:
+            for n_ in walk(e_) if e_ is not None else []:
+                if n_['k'] == 'path' and n_['res'].get('r') == 'local' and 'String' in n_.get('ty', ''):
+                    ret_locals.add(n_['res']['hid'])
+        for n_ in walk(rf.body):
+            if n_['k'] == 'mcall' and n_['recv'].get('k') == 'path' and n_['recv']['res'].get('hid') in ret_locals and n_['recv'].get('aty', '').startswith('&mut'):
+                other.append(n_)
+            if n_['k'] in ('assign', 'assignop') and n_['l'].get('k') == 'path' and n_['l']['res'].get('hid') in ret_locals:
+                other.append({'method': '='})
         if len(reads) == 1 and not other and not xfs:
             obs.append(ok('QUERY-TEXT', 'read_file/verbatim', 'file content is returned as read by one read_to_string, untransformed', rf.loc))
         else:
